@@ -18,7 +18,7 @@ HOOKS = {
 
 ENGINES = [
     {'name': 'vf', 'path': 'vf/harness.py',
-     'serves_properties': ['C07', 'C13', 'C15', 'C16', 'C20'],
+     'serves_properties': ['C01', 'C02', 'C05', 'C07', 'C13', 'C15', 'C16', 'C20'],
      'kind_free_text': ('runtime monitoring driver: 16 worker processes import the real '
                         'openhtf from /repo, run enumerated + seeded cases, monitors '
                         'decide each property from observed events; witnesses are '
@@ -93,5 +93,41 @@ CHECKS = {
                  '(command, local id, remote id) and id distinctness/range with STREAM_ID_LIMIT 8, 70 and the real limit'),
         'note': ('trusts the automaton and the sequential multiplexer model in vf/props/c15.py; silence is modelled as the '
                  'transport\'s USB time-out; multi-threaded use of a connection is C14'),
+    },
+    'C01': {
+        'level': 'exploration',
+        'technique': 'runtime monitoring of real runs: PASS-implication oracle over the observed call log/records/escaped exceptions, plus differential outcome oracle (reference interpreter) over enumerated programs x settings',
+        'text': ('every node tree with <= 3 (quick) / <= 4 (thorough) nodes over the full reduced alphabet is built from real '
+                 'openhtf objects and executed under a settings tuple derived from its index (both stop_on_first_failure '
+                 'switches, allow_unset_measurements, failure_exceptions exact/superclass, test diagnosers, test_start) and, '
+                 'for every fourth, default settings; directed programs cover executor failures, repeated attempts, all-skip, '
+                 'vacuous and unset cases; seeded random rich programs x random settings extend it; a PASS is judged on the '
+                 'observation alone (all declared phases ran or are excused by observed branch records/run_if, no FAIL/ERROR '
+                 'record, no failed or disallowed-unset measurement, no failure diagnosis or failed subtest, not all SKIP, no '
+                 'exception escaped the executor thread) and every outcome is compared with the reference interpreter'),
+        'note': ('known finding F3 (non-final attempt of a repeated phase is terminal, final attempt passes -> PASS) is keyed by '
+                 'mechanism in known_findings.json; ABORTED is C04; time-outs use the virtual clock'),
+    },
+    'C02': {
+        'level': 'exploration',
+        'technique': 'runtime differential monitoring: generated phase bodies log invocations; call log and phase/subtest/branch/checkpoint records of real runs compared with a reference interpreter of docs/event_sequence.md over exhaustively enumerated node trees',
+        'text': ('all node trees with <= 3 nodes (full alphabet: 12 phase kinds, 8 checkpoint kinds, 2 branch conditions) and '
+                 '<= 3 nodes (small alphabet) in the quick tier, <= 4 in the thorough tier (containers count as nodes), plus '
+                 'directed nestings and seeded random rich trees of depth <= 3, are executed for real; bodies that execute, '
+                 'their order and multiplicity, and all four record lists, diagnoses and diagnoser call counts must equal the '
+                 'reference interpreter'),
+        'note': ('trusts vf/progmodel.Model (written from docs/event_sequence.md; doc-silent rules r1-r12 pinned to observed '
+                 'behaviour and listed in DESIGN.md); default settings only'),
+    },
+    'C05': {
+        'level': 'exploration',
+        'technique': 'runtime monitoring of real runs: counting predicates on invocation/record/diagnoser events plus per-record comparison with the documented outcome function',
+        'text': ('one phase under test at five positions x per-invocation behaviour sequences (all of length <= 2 over ten result '
+                 'codes plus selected longer ones) x repeat_limit x six repeat/stop options enumerated completely, measurement x '
+                 'diagnoser x option and run_if products at selected positions, and seeded samples of the full product; checked: '
+                 'one record per invocation, at most repeat_limit invocations, every re-invocation has a documented cause, a '
+                 'false/raising run_if means no invocation and no record, every diagnoser ran once per eligible invocation, and '
+                 'each record equals the documented function of what the invocation did'),
+        'note': 'expected records come from vf/progmodel.Model.once; time-outs use the virtual clock',
     },
 }
